@@ -218,6 +218,18 @@ theorem accounts_kept_witness :
     (viewCold [.svc svcA, .pod p1, .slice (sliceOf "a-s1" [])]).map (fun v => (v.eps, v.sas)) = some ([], []) := by
   decide +kernel
 
+/-- `needResync` can keep a registration nothing waits for: the slice is updated so that the waiting
+    address now refers to a pod that is known (`cleanupRemovedEndpoints` only handles removed
+    addresses).  The entry goes away with the next pod event for that IP or with the slice.
+    `SliceKeepsWaiting` is the clause of `GoodStep` that excludes it. -/
+theorem needResync_stale_registration_witness :
+    (run {} [.svc svcA, .pod p2, .slice s1, .slice (sliceOf "a-s1" [ep "10.0.0.1" true false "p2"])]).c.resync =
+      [("10.0.0.1", ["n1/a-s1"])] ∧
+    parkedAddrs (run {} [.svc svcA, .pod p2, .slice s1, .slice (sliceOf "a-s1" [ep "10.0.0.1" true false "p2"])]).c.pods
+      (sliceOf "a-s1" [ep "10.0.0.1" true false "p2"]) = [] ∧
+    ¬ AllGood {} [.svc svcA, .pod p2, .slice s1, .slice (sliceOf "a-s1" [ep "10.0.0.1" true false "p2"])] := by
+  decide +kernel
+
 /-- each witness history violates exactly the clause of `GoodStep` that names its class -/
 example : ¬ AllGood {} [.slice termEp, .pod p1term, .svc svcA] := by decide +kernel
 example : ¬ AllGood {} [.svc svcA, .pod (p1nr [("app", "a"), ("version", "v1")]), .slice s1nr,
